@@ -20,17 +20,20 @@ What is proved, for every formula, box, recursion depth and oracle:
 * `ceil_strip_sound_mono` — stripping `ceiling` is harmless in the direction in which the formula is
   monotone in the stripped terms; `ceil_strip_unsound_example` delimits it
   (`ceiling(a/4) − 1/2` on `a ∈ [1,2]`: the model, with a truthful oracle, answers LEQ; the value is 1/2).
-* `heaviside_partition_counterexample` — the joint partition (all Heaviside terms 1 / all 0) is NOT
-  sound for two different Heaviside terms: `H(a−2) − H(b−2)` gets verdict EQ.
+* `heaviside_partition_counterexample` — the OLD joint partition (all Heaviside terms 1 / all 0) was not
+  sound for two different Heaviside terms: `H(a−2) − H(b−2)` got verdict EQ; the repaired per-atom
+  partition (`Cfg.repaired`, the model of the code today) answers UNKNOWN on the same formula, and needs a
+  side condition only at points where a Heaviside argument is exactly 0 (`heavParts_exact`).
 * `shortcut_sound`, `verdict_sound_tdncz_partial`, `tdncz_fallthrough_counterexample` — with
   `terms_do_not_cross_zero` every verdict is sound EXCEPT the early `LEQ` returned when the first
   direction is merely undecided; the counterexample (`Max(a,b) − a`) shows that one is not.
 * `minmax_rules_sound`, `or_sound`, `table_sound`, `unknown_allowed`,
   `adjacent_mono_implies_mono`, `diff_verdict_sound`.
 
-The full-strength statement "every verdict of the real comparator holds" is FALSE on the unchanged
-tree (the three counterexamples are replayed on the real code by the harness, which finds two more
-causes outside the model: wrong sympy relationals, and the `_is_connected` monkeypatch).
+`Cfg.repaired` is THE model (the code in /repo after the `fix:` commits: per-atom Heaviside partition,
+relational answers validated at both corners of the box, no early returns, no Integer crash);
+`Cfg.asIs` is the code as it was and is kept for the counterexample theorems. The ceiling strip is
+unrepaired: `ceil_strip_unsound_example` holds for both variants (still a known finding).
 -/
 namespace AFV.C09
 open AFV.Expr9 AFV.Verdict
@@ -97,7 +100,7 @@ If sympy's answers are truthful on the box (`OracleSound`) and `f` lies, for bot
 class on which the repo's own rewrites are harmless (`Admissible`), then whatever verdict the
 comparator returns holds at every integer point of the box. No bound on formula size, box or depth. -/
 theorem verdict_sound {cfg : Cfg} {o : Oracle} {box : Box} {C : Bool → E → Prop}
-    (hO : OracleSound o box) (hA : Admissible o box C)
+    (hO : OracleSound o box) (hA : Admissible cfg o box C)
     (fuel : Nat) (f : E) (hf : C true f ∧ C false f) (v : CR)
     (h : geqLeqZero cfg o box fuel f false = .ok v) : Holds box f v := by
   unfold geqLeqZero at h
@@ -179,7 +182,7 @@ It is proved below for the repaired code (`verdict_sound_tdncz_repaired`).
 except the `LEQ` that does not come from a corner shortcut (and that one too once the early returns
 are removed). -/
 theorem verdict_sound_tdncz_partial {cfg : Cfg} {o : Oracle} {box : Box} {C : Bool → E → Prop}
-    (hO : OracleSound o box) (hA : Admissible o box C) (hb : BoxOK box)
+    (hO : OracleSound o box) (hA : Admissible cfg o box C) (hb : BoxOK box)
     (fuel : Nat) (f : E) (hf : C true f ∧ C false f) (hn : NoCross box f) (v : CR)
     (h : geqLeqZero cfg o box fuel f true = .ok v)
     (hv : cfg.tdnczEarly = false ∨ v ≠ .leq ∨ shortcut box f = some .leq) : Holds box f v := by
@@ -223,7 +226,7 @@ theorem verdict_sound_tdncz_partial {cfg : Cfg} {o : Oracle} {box : Box} {C : Bo
 /-- **With the two early returns removed the `terms_do_not_cross_zero` mode is sound, full statement.** -/
 theorem verdict_sound_tdncz_repaired {cfg : Cfg} (hcfg : cfg.tdnczEarly = false)
     {o : Oracle} {box : Box} {C : Bool → E → Prop}
-    (hO : OracleSound o box) (hA : Admissible o box C) (hb : BoxOK box)
+    (hO : OracleSound o box) (hA : Admissible cfg o box C) (hb : BoxOK box)
     (fuel : Nat) (f : E) (hf : C true f ∧ C false f) (hn : NoCross box f) (v : CR)
     (h : geqLeqZero cfg o box fuel f true = .ok v) : Holds box f v :=
   verdict_sound_tdncz_partial hO hA hb fuel f hf hn v h (Or.inl hcfg)
@@ -233,7 +236,7 @@ theorem verdict_sound_tdncz_repaired {cfg : Cfg} (hcfg : cfg.tdnczEarly = false)
 /-- `diff_geq_leq_zero(f, s, bounds)` is `geq_leq_zero` of sympy's derivative of sympy's expansion:
 its verdict is a sound SIGN verdict about that derivative expression. -/
 theorem diff_verdict_sound {cfg : Cfg} {o : Oracle} {box : Box} {C : Bool → E → Prop}
-    (hO : OracleSound o box) (hA : Admissible o box C) (fuel : Nat) (f : E) (s : Nat)
+    (hO : OracleSound o box) (hA : Admissible cfg o box C) (fuel : Nat) (f : E) (s : Nat)
     (hC : ∀ e d, o.expand f = some e → o.diff e s = some d → C true d ∧ C false d) (v : CR)
     (h : diffVerdict cfg o box fuel f s = .ok v) :
     ∃ e d, o.expand f = some e ∧ o.diff e s = some d ∧ Holds box d v := by
@@ -256,7 +259,7 @@ directly on every sampled formula by finite differences. -/
 def DerivLink (box : Box) (f : E) (s : Nat) (d : E) : Prop := ∀ v, Holds box d v → HoldsMono box f s v
 
 theorem diff_verdict_mono {cfg : Cfg} {o : Oracle} {box : Box} {C : Bool → E → Prop}
-    (hO : OracleSound o box) (hA : Admissible o box C) (fuel : Nat) (f : E) (s : Nat)
+    (hO : OracleSound o box) (hA : Admissible cfg o box C) (fuel : Nat) (f : E) (s : Nat)
     (hC : ∀ e d, o.expand f = some e → o.diff e s = some d → C true d ∧ C false d)
     (hL : ∀ e d, o.expand f = some e → o.diff e s = some d → DerivLink box f s d) (v : CR)
     (h : diffVerdict cfg o box fuel f s = .ok v) : HoldsMono box f s v := by
@@ -309,12 +312,12 @@ theorem adjacent_mono_implies_mono (box : Box) (f : E) (s : Nat)
 theorem verdict_sound_plain {cfg : Cfg} {o : Oracle} {box : Box} (hO : OracleSound o box) (hP : PlainOracle o)
     (fuel : Nat) (f : E) (hf : Plain f) (v : CR)
     (h : geqLeqZero cfg o box fuel f false = .ok v) : Holds box f v :=
-  verdict_sound hO (admissible_plain box hP) fuel f ⟨hf, hf⟩ v h
+  verdict_sound hO (admissible_plain cfg box hP) fuel f ⟨hf, hf⟩ v h
 
 /-- non-vacuity: a truthful oracle, a plain formula, a definite verdict (`a − 1 ≥ 0` on `[1,4]`). -/
-example : geqLeqZero Cfg.asIs oP boxP 3 fP false = .ok .geq := isOkV_iff.mp (by decide +kernel)
+example : geqLeqZero Cfg.repaired oP boxP 3 fP false = .ok .geq := isOkV_iff.mp (by decide +kernel)
 example : Holds boxP fP .geq :=
-  verdict_sound_plain (cfg := Cfg.asIs) oP_sound oP_plain 3 fP fP_plain .geq (isOkV_iff.mp (by decide +kernel))
+  verdict_sound_plain (cfg := Cfg.repaired) oP_sound oP_plain 3 fP fP_plain .geq (isOkV_iff.mp (by decide +kernel))
 
 /-! ## stripping `ceiling` -/
 
@@ -379,10 +382,11 @@ truthful oracle the model answers LEQ — which is true of the stripped formula 
 formula itself is `1/2` at `a = 1`. (The formula is increasing in its ceiling term, so only GEQ
 verdicts transfer, cf. `ceil_strip_sound_mono`.) -/
 theorem ceil_strip_unsound_example :
-    OracleSound o0 box0 ∧ geqLeqZero Cfg.asIs o0 box0 5 f0 false = .ok .leq ∧ Holds box0 (strip f0) .leq ∧
+    OracleSound o0 box0 ∧ geqLeqZero Cfg.repaired o0 box0 5 f0 false = .ok .leq ∧
+    geqLeqZero Cfg.asIs o0 box0 5 f0 false = .ok .leq ∧ Holds box0 (strip f0) .leq ∧
     InBox box0 (envOf [1]) ∧ eval (envOf [1]) f0 = 1 / 2 ∧ ¬ Holds box0 f0 .leq := by
   have hv : eval (envOf [1]) f0 = 1 / 2 := by decide +kernel
-  refine ⟨o0_sound, isOkV_iff.mp (by decide +kernel), ?_, inBox0_one, hv, ?_⟩
+  refine ⟨o0_sound, isOkV_iff.mp (by decide +kernel), isOkV_iff.mp (by decide +kernel), ?_, inBox0_one, hv, ?_⟩
   · intro ρ hρ
     have hb := inBox0 hρ
     show eval ρ g0 ≤ 0
@@ -405,9 +409,11 @@ for `Heaviside(a−2) − Heaviside(b−2)` both parts are `1−1` and `0−0`, 
 `= 0` for both, the model answers EQ — and the formula is 1 at `(a, b) = (3, 1)`. -/
 theorem heaviside_partition_counterexample :
     OracleSound oH boxH ∧ geqLeqZero Cfg.asIs oH boxH 5 fH false = .ok .eq ∧
-    InBox boxH (envOf [3, 1]) ∧ eval (envOf [3, 1]) fH = 1 ∧ ¬ Holds boxH fH .eq := by
+    InBox boxH (envOf [3, 1]) ∧ eval (envOf [3, 1]) fH = 1 ∧ ¬ Holds boxH fH .eq ∧
+    -- regression: the repaired per-atom partition, with sympy's answers on that run, says UNKNOWN
+    OracleSound oH2 boxH ∧ geqLeqZero Cfg.repaired oH2 boxH 5 fH false = .ok .unknown := by
   have hv : eval (envOf [3, 1]) fH = 1 := by decide +kernel
-  refine ⟨oH_sound, isOkV_iff.mp (by decide +kernel), inBoxH_31, hv, ?_⟩
+  refine ⟨oH_sound, isOkV_iff.mp (by decide +kernel), inBoxH_31, hv, ?_, oH2_sound, isOkV_iff.mp (by decide +kernel)⟩
   intro h
   have := h _ inBoxH_31
   rw [hv] at this
